@@ -72,6 +72,11 @@ def generic_aggregate(
     if func in ["nanfirst", "nanlast"] and array.dtype.kind in "US":
         func = func[3:]
 
+    if func in ["nanargmax", "nanargmin"] and array.dtype.kind in "iub":
+        # no NaN to skip; the nan-skipping kernels go through float64,
+        # which cannot tell neighbouring integers beyond 2**53 apart
+        func = func[3:]
+
     if engine == "flox":
         try:
             method = getattr(aggregate_flox, func)
